@@ -254,6 +254,12 @@ def cases(tier, seed):
     for cfg in r3:
       for (omin, omax) in ((None, None), (-1.0, 2.5)):
         add(sizes=sizes, units=2 if sizes == [2, 2, 2] else 1, omin=omin, omax=omax, **cfg)
+  # --- several trapezoid trusts on different conditional features, Edgeworth trusts matching the first / the second / both
+  for cfg in (dict(mono=[1, 0, 0], edge=[(0, 2, 1)], trap=[(0, 1, 1), (0, 2, 1)]),
+              dict(mono=[1, 0, 0], edge=[(0, 2, 1), (0, 1, 1)], trap=[(0, 1, 1), (0, 2, 1)]),
+              dict(mono=[1, 0, 0], edge=[(0, 1, -1)], trap=[(0, 2, 1), (0, 1, -1)])):
+    add(sizes=[3, 3, 3], units=1, omin=None, omax=None, **cfg)
+    add(sizes=[3, 3, 3], units=2, omin=0.0, omax=1.0, **cfg)
   # --- Dykstra iterations in front (wiring between the two stages), other families alongside
   for it in (1, 2):
     add(sizes=[3, 3], units=2, mono=[1, 1], edge=[(0, 1, 1)], trap=[(0, 1, 1)], omin=0.0, omax=1.0, iters=it)
